@@ -1,9 +1,15 @@
 (* Driver of area `script` (C11): the extracted script-layer model.
-   compile_script <src>  ->  <hex bytes> TAB <log text>   (same format as compile_core of the core driver) *)
+   compile_script <src>  ->  <hex bytes> TAB <log text>   (same format as compile_core of the core driver)
+   compile_script_ja <src>  ->  the same with the message language ja *)
 let dispatch (fields : string list) : string =
   match fields with
   | ["compile_script"; src] ->
       (match compile_script (text_of_field src) with
+       | Ok (bytes, log) -> field_of_bytes bytes ^ "\t" ^ field_of_text log
+       | Panic s -> "PANIC:" ^ string_of_z s | OutOfFuel -> "OUTOFFUEL" | Unsupported w -> "UNSUPPORTED:" ^ string_of_z w)
+  | ["compile_script_ja"; src] ->
+      (* the same pipeline with the message language ja: Script.compile_script_lang true *)
+      (match compile_script_lang true (text_of_field src) with
        | Ok (bytes, log) -> field_of_bytes bytes ^ "\t" ^ field_of_text log
        | Panic s -> "PANIC:" ^ string_of_z s | OutOfFuel -> "OUTOFFUEL" | Unsupported w -> "UNSUPPORTED:" ^ string_of_z w)
   | k :: _ -> "UNKNOWN-KIND:" ^ k
